@@ -1,8 +1,37 @@
-"""C16 — a fitted vine is a regular vine of the requested type and depth (first version: end-to-end fit only)."""
+"""C16 — a fitted vine is a regular vine of the requested type and depth.
+
+(1) Props/C16.v: the structural theorems of coq/Spec/Vine*.v restated and re-checked (plus the theta domains generated
+    from copulas/bivariate/*.py).
+(2) correspondence, all evaluated by vm_compute inside Coq:
+    (i)   unit level: the REAL VineCopula.train_vine / Tree.fit / CenterTree / DirectTree / RegularTree driven with synthetic
+          tau matrices for every level (data plane stubbed), numpy's argsort order and Python's set-iteration order recorded
+          and replayed in Model.Vine; every tree compared edge by edge (index, L, R, D, parents);
+    (ii)  end to end: VineCopula(type).fit(table, truncated=t); the tau matrix actually handed to every Tree.fit is captured
+          and the model replayed with it; the proved-sound validator Spec.VineValid.valid_vine is run on the
+          implementation's own output;
+    (iii) every edge's (family, theta) is what select_copula returned for that edge's input columns and passes check_theta
+          (the implementation's and Model.BivCtl.check_theta on the generated domains).
+    F8: copulas.multivariate.tree's np.empty is poisoned with different fills (harness side only); a structure that depends
+    on the fill depends on uninitialised memory.
+(3) witness search: an independent Python statement of the property (vinestruct.py_validate, own Kruskal) on every
+    implementation output of (i) and (ii).
+"""
+import hashlib
+import itertools
+
 import numpy as np
+
+from .. import biv, cases
+from .. import vinestruct as VS
+
+VTS = ('center', 'direct', 'regular')
+FILLS = (float('nan'), 0.123, 2.0)
+KINDS = ('gauss', 'strong', 'heavy', 'mixed', 'ties', 'indep', 'mono', 'anti', 'binary', 'dup')
+DEGENERATE = ('mono', 'dup', 'binary')     # ValueError refusals are accepted for these tables (reported, not violations)
 
 
 def table(rng, d, n=120):
+    """random Gaussian table with d columns (also used by C17)"""
     import pandas as pd
     a = rng.normal(size=(d, d))
     cov = a @ a.T + np.eye(d)
@@ -10,22 +39,427 @@ def table(rng, d, n=120):
     return pd.DataFrame(z, columns=[f'c{i}' for i in range(d)])
 
 
-def run(ctx):
-    from copulas.multivariate import VineCopula
-    rng = np.random.default_rng(ctx.seed + 16)
-    for vt in ('center', 'direct', 'regular'):
-        for d in (3, 4, 5):
-            X = table(rng, d)
-            rep = (f"import numpy as np, pandas as pd\nfrom copulas.multivariate import VineCopula\nrng=np.random.default_rng(1)\n"
-                   f"X=pd.DataFrame(rng.normal(size=(80,{d})), columns=list('abcdefg')[:{d}])\nv=VineCopula('{vt}'); v.fit(X)\nprint([len(t.edges) for t in v.trees])\n")
+def e2e_table(seed, d, n, kind):
+    import pandas as pd
+    if kind in ('mono', 'anti', 'binary', 'dup'):
+        X = VS.make_table(seed, d, n, 'gauss')
+        z = X.to_numpy().copy()
+        if kind == 'mono':
+            z[:, -1] = np.exp(z[:, 0])
+        elif kind == 'anti':
+            z[:, -1] = -z[:, 0] + 1e-3 * z[:, -1]
+        elif kind == 'binary':
+            z[:, -1] = (z[:, 0] > 0) * 1.0
+        else:
+            z[:, -1] = z[:, 0]
+        return pd.DataFrame(z, columns=X.columns)
+    return VS.make_table(seed, d, n, kind)
+
+
+def digest(obj):
+    return hashlib.sha1(repr(obj).encode()).hexdigest()[:10]
+
+
+def fill_name(f):
+    return 'nan' if f != f else repr(f)
+
+
+# ------------------------------------------------------------------------------------------------ unit level
+def unit_cases(ctx, quick):
+    rng = np.random.default_rng(ctx.seed + 1600)
+    out = []
+
+    def deeper(d, kinds=('grid', 'distinct', 'sparse', 'nanvar')):
+        return [VS.random_tau(rng, d - k, k, kinds[int(rng.integers(0, len(kinds)))]) for k in range(1, max(1, d - 1))]
+
+    # exhaustive over the strict orderings of the pairwise |tau| ranks, d <= 4 (sampled in the quick tier for d = 4)
+    for d in (2, 3, 4):
+        perms = list(VS.all_orderings(d))
+        if quick and len(perms) > 40:
+            perms = [perms[i] for i in sorted(rng.choice(len(perms), size=40, replace=False))]
+        for p in perms:
+            for vt in VTS:
+                signs = [bool(rng.random() < 0.5) for _ in p]
+                t = d - 1 if rng.random() < 0.7 else int(rng.choice([1, 2, 3, d + 2]))
+                out.append({'src': 'ordering', 'vt': vt, 'd': d, 't': t, 'taus': [VS.ordering_matrix(p, signs)] + deeper(d)})
+    # boundary-biased random matrices with ties, NaN variables, NaN cells, d <= 7
+    n_rand = 120 if quick else 2400
+    for i in range(n_rand):
+        vt = VTS[i % 3]
+        d = int(rng.choice([2, 3, 4, 5, 5, 6, 6, 7, 7]))
+        t = d - 1 if rng.random() < 0.5 else int(rng.choice([0, 1, 2, 3, d - 1, d + 2]))
+        kind = ('grid', 'distinct', 'nanvar', 'sparse', 'grid')[int(rng.integers(0, 5))]
+        out.append({'src': kind, 'vt': vt, 'd': d, 't': t, 'taus': [VS.random_tau(rng, d, 0, kind)] + deeper(d)})
+    return out
+
+
+def repro_unit(c, expected):
+    return ("# drives the real VineCopula.train_vine / Tree classes with these tau matrices (select_copula and the data plane stubbed)\n"
+            "from vf import vinestruct as VS\n"
+            f"taus = {[VS.tolist(m) for m in c['taus']]!r}\n"
+            f"expected = {expected!r}    # structure computed by the Coq model (coq/Model/Vine.v) with the recorded argsort/set orders\n"
+            f"r = VS.repro_unit({c['vt']!r}, {c['d']}, {c['t']}, taus, expected)\n"
+            "print('\\n'.join(r))\nassert not r\n")
+
+
+def unit_level(ctx, quick):
+    cs = unit_cases(ctx, quick)
+    exprs = []
+    for c in cs:
+        cap, v, exc = VS.drive_train_vine(c['vt'], c['d'], c['t'], c['taus'])
+        c['exc'] = exc
+        c['struct'] = None if exc is not None else VS.edges_of(v.trees)
+        # the matrices the implementation handed to Tree.fit must be the ones get_tau_matrix returned (padded check)
+        c['passed_ok'] = all(np.array_equal(lv['tau'], np.asarray(c['taus'][lv['index']], dtype=float), equal_nan=True)
+                             and lv['n'] == c['d'] - lv['index'] for lv in cap.levels)
+        term, okrec = VS.coq_replay(c['vt'], c['d'], c['t'], cap.levels, c['taus'])
+        c['okrec'] = okrec
+        c['i_replay'] = len(exprs)
+        exprs.append(term)
+        if c['struct'] is not None:
+            c['i_valid'] = len(exprs)
+            exprs.append(VS.coq_valid(c['vt'], c['d'], c['t'], c['struct']))
+    outs = cases.run_vm_cases(ctx, 'Cases_C16_unit', VS.VM_IMPORTS, exprs, per_file=60 if quick else 150, scope_open=VS.VM_SCOPE)
+    agree = 0
+    for i, c in enumerate(cs):
+        vt, d, t = c['vt'], c['d'], c['t']
+        model = VS.parse_vine(outs[c['i_replay']])
+        ok = (model == c['struct']) and c['okrec'] and c['passed_ok'] and not isinstance(model, str)
+        ctx.obligation(f'corr:unit{i}:{vt}:d{d}:t{t}', ok, 'correspondence',
+                       '' if ok else f"impl={c['struct']} exc={c['exc']!r} model={model} records_consistent={c['okrec']} taus_passed={c['passed_ok']}")
+        ctx.case(('unit', vt, d, t, digest(c['struct'])),
+                 {'level': 'unit', 'source': c['src'], 'vine_type': vt, 'd': d, 'truncated': t, 'tau_level1': VS.tolist(c['taus'][0]),
+                  'structure': c['struct']}, nontrivial=c['struct'] is not None and d >= 3)
+        if ok:
+            agree += 1
+        else:
+            what = (f"{vt} vine on d={d}, truncated={t}: the real Tree classes built {c['struct']}"
+                    + (f" (raised {type(c['exc']).__name__}: {c['exc']})" if c['exc'] is not None else '') + f", the model {model}")
+            key = f"corr:unit:{vt}" + (f":raises-{type(c['exc']).__name__}" if c['exc'] is not None else '')
+            ctx.violation(key, what, {'vine_type': vt, 'd': d, 'truncated': t, 'taus': [VS.tolist(m) for m in c['taus']],
+                                      'impl': c['struct'], 'model': model, 'repro': repro_unit(c, model if not isinstance(model, str) else 'skip')})
+        if c['struct'] is not None:
+            vres = outs[c['i_valid']]
+            vok = vres == 'true'
+            ctx.obligation(f'valid:unit{i}:{vt}:d{d}:t{t}', vok, 'correspondence', '' if vok else f"valid_vine = {vres} on {c['struct']}")
+            probs = VS.py_validate(vt, d, t, c['struct'], c['taus'][0])
+            if not vok or probs:
+                ctx.violation(f'invalid-vine:unit:{vt}', f"{vt} vine on d={d}, truncated={t} built by the real Tree classes is not a regular vine of "
+                              f"that type/depth: {probs[:3] or 'rejected by the Coq validator valid_vine'}",
+                              {'vine_type': vt, 'd': d, 'truncated': t, 'taus': [VS.tolist(m) for m in c['taus']], 'impl': c['struct'],
+                               'problems': probs, 'coq_valid_vine': vres, 'repro': repro_unit(c, 'skip')})
+    ctx.extra['unit_cases'] = {'total': len(cs), 'agreeing': agree,
+                               'by_source': {s: sum(1 for c in cs if c['src'] == s) for s in sorted({c['src'] for c in cs})},
+                               'by_d': {d: sum(1 for c in cs if c['d'] == d) for d in range(2, 8)},
+                               'python_raised': sum(1 for c in cs if c['exc'] is not None)}
+
+
+# ------------------------------------------------------------------------------------------------ end to end
+def e2e_plan(ctx, quick):
+    rng = np.random.default_rng(ctx.seed + 1601)
+    plan = []
+    j = int(ctx.seed)
+    for vt in VTS:
+        for d in range(2, 8):
+            ts = [1, 2, 3, d - 1, d + 2]
+            reps = 1 if quick else 3
+            for r in range(reps):
+                for t in ts:
+                    kind = KINDS[j % len(KINDS)]
+                    j += 1
+                    plan.append({'vt': vt, 'd': d, 't': int(max(1, t)), 'kind': kind, 'n': int(rng.integers(60, 101)),
+                                 'tseed': int(rng.integers(0, 2 ** 31))})
+    return plan
+
+
+def repro_fit(p, what):
+    return ("# end-to-end VineCopula.fit under poisoned np.empty fills (harness side only), independent validator\n"
+            "from vf.props.C16 import replay_fit\n"
+            f"r = replay_fit({p['vt']!r}, {p['tseed']}, {p['d']}, {p['n']}, {p['kind']!r}, {p['t']}, {what!r})\n"
+            "print('\\n'.join(map(str, r)))\nassert not r\n")
+
+
+def replay_fit(vt, tseed, d, n, kind, t, what):
+    """used by replay snippets; returns the list of problems of class `what`"""
+    X = e2e_table(tseed, d, n, kind)
+    out, structs = [], []
+    for f in FILLS:
+        cap, v, exc = VS.fit_vine(vt, X, t, f)
+        if exc is not None:
+            if what == 'raises':
+                out.append(f'fill={fill_name(f)}: raised {type(exc).__name__}: {exc}')
+            structs.append(None)
+            continue
+        s = VS.edges_of(v.trees)
+        structs.append(s)
+        if what == 'valid':
+            out += [f'fill={fill_name(f)}: {p}' for p in VS.py_validate(vt, d, t, s, cap.levels[0]['tau'])]
+        if what == 'edges':
+            out += [f'fill={fill_name(f)}: {p}' for p in check_edge_copulas(cap, v)[0]]
+        if what == 'unwritten' and f != f:
+            nr = unwritten_reads(cap, v, vt)
+            out += [f'tree {tk}: {c} unwritten tau cells read' for tk, c in nr.items() if vt == 'center' or tk <= 2]
+        if what == 'kendall' and f != f:
+            km = kendall_matrix(X)
+            if not np.allclose(cap.levels[0]['tau'], km, rtol=0, atol=1e-9, equal_nan=True):
+                out.append(f"Tree.fit got {cap.levels[0]['tau'].tolist()} but pairwise Kendall tau is {km.tolist()}")
+            out += VS.py_validate(vt, d, t, s, km)
+    if what == 'fill' and any(s != structs[0] for s in structs[1:]):
+        for f, s in zip(FILLS, structs):
+            out.append(f'np.empty fill {fill_name(f)}: {s}')
+    return out
+
+
+def check_edge_copulas(cap, v):
+    """(iii): edge i of every tree carries what the i-th select_copula call of that tree returned, computed on that edge's
+    input columns, and the theta passes the family's check_theta.  Returns (problems, [(family, theta)])."""
+    from copulas.bivariate import Bivariate
+    bad, fams = [], []
+    for lv, tree in zip(cap.levels, v.trees):
+        k = lv['index']
+        if len(lv['selects']) != len(tree.edges):
+            bad.append(f'tree {k + 1}: {len(lv["selects"])} select_copula calls for {len(tree.edges)} edges')
+            continue
+        for e, (X, name, theta) in zip(tree.edges, lv['selects']):
+            if e.name is not name or not (e.theta is theta or e.theta == theta):
+                bad.append(f'tree {k + 1} edge {e.index}: stores ({e.name}, {e.theta}) but select_copula returned ({name}, {theta})')
+            if X.ndim != 2 or X.shape != (v.n_sample, 2):
+                bad.append(f'tree {k + 1} edge {e.index}: select_copula input has shape {X.shape}')
+                continue
+            if k == 0:
+                cols = [v.u_matrix[:, int(e.L)], v.u_matrix[:, int(e.R)]]
+                okc = (np.array_equal(X[:, 0], cols[0]) and np.array_equal(X[:, 1], cols[1])) or \
+                      (np.array_equal(X[:, 0], cols[1]) and np.array_equal(X[:, 1], cols[0]))
+                if not okc:
+                    bad.append(f'tree 1 edge {e.index} ({e.L},{e.R}): select_copula input is not the pair of marginal columns {e.L},{e.R}')
+            else:
+                p0, p1 = e.parents
+                ok0 = any(np.array_equal(X[:, 0], np.ravel(u)) for u in p0.U)
+                ok1 = any(np.array_equal(X[:, 1], np.ravel(u)) for u in p1.U)
+                if not (ok0 and ok1):
+                    bad.append(f'tree {k + 1} edge {e.index}: select_copula input columns are not conditional columns of its two parents')
             try:
-                v = VineCopula(vt)
-                v.fit(X)
-                ok = [len(t.edges) for t in v.trees] == [d - 1 - k for k in range(min(d - 1, 3))]
-                ctx.obligation(f'fit:{vt}:{d}', ok, 'correspondence', str([len(t.edges) for t in v.trees]))
-                if not ok:
-                    ctx.violation(f'fit-shape:{vt}', f'VineCopula({vt!r}).fit on {d} columns: trees have {[len(t.edges) for t in v.trees]} edges', {'repro': rep})
-            except Exception as ex:
-                ctx.obligation(f'fit:{vt}:{d}', False, 'correspondence', repr(ex))
-                ctx.violation(f'fit-raises:{vt}:{type(ex).__name__}', f'VineCopula({vt!r}).fit on {d} columns raised {type(ex).__name__}: {ex}', {'vine_type': vt, 'd': d, 'repro': rep})
-            ctx.case((vt, d), {'vine_type': vt, 'columns': d})
+                c = Bivariate(copula_type=e.name)
+                c.theta = e.theta
+                c.check_theta()
+            except Exception as ex:      # noqa
+                bad.append(f'tree {k + 1} edge {e.index}: theta {e.theta} is not admissible for {e.name}: {type(ex).__name__}: {ex}')
+            fams.append((str(getattr(e.name, 'name', e.name)).lower(), float(e.theta)))
+    return bad, fams
+
+
+def coq_theta(fam, th):
+    from fractions import Fraction
+    if th != th:
+        return 'false'
+    if th in (float('inf'), float('-inf')):
+        ext = 'PInf' if th > 0 else 'MInf'
+    else:
+        f = Fraction(th)
+        ext = f'(Fin (Qmake ({f.numerator}) {f.denominator}))'
+    if fam not in ('clayton', 'frank', 'gumbel'):
+        return 'false'
+    return f'check_theta {fam}_dom {ext}'
+
+
+def unwritten_reads(cap, v, vt):
+    """per tree (1-based number): how many cells of the captured (NaN-poisoned) tau matrix the construction of that tree reads
+    although get_tau_matrix never wrote them"""
+    out = {}
+    for lv, tree in zip(cap.levels, v.trees):
+        k = lv['index']
+        if k == 0:
+            continue
+        prev = v.trees[k - 1].edges
+        tau = lv['tau']
+        n = 0
+        if vt == 'direct':
+            n = sum(1 for i in range(len(prev) - 1) if tau[i, i + 1] != tau[i, i + 1])
+        elif vt == 'regular':
+            for x in range(len(prev)):
+                for y in range(len(prev)):
+                    if x != y and tau[x, y] != tau[x, y]:
+                        U = {prev[x].L, prev[x].R, *prev[x].D, prev[y].L, prev[y].R, *prev[y].D}
+                        n += len(U) == k + 2
+        else:
+            n = sum(1 for i in range(1, len(prev)) if tau[i, 0] != tau[i, 0])
+        if n:
+            out[k + 1] = n
+    return out
+
+
+def kendall_matrix(X):
+    """independent pairwise Kendall tau-b of the table (scipy on the raw columns)"""
+    import scipy.stats
+    z = X.to_numpy()
+    d = z.shape[1]
+    m = np.ones((d, d))
+    for i in range(d):
+        for j in range(i + 1, d):
+            m[i, j] = m[j, i] = scipy.stats.kendalltau(z[:, i], z[:, j])[0]
+    return m
+
+
+def e2e_level(ctx, quick):
+    plan = e2e_plan(ctx, quick)
+    exprs, runs = [], []
+    refusals, f8_tau, f8_reads, fam_count = [], {}, {}, {}
+    for pi, p in enumerate(plan):
+        vt, d, t = p['vt'], p['d'], p['t']
+        X = e2e_table(p['tseed'], d, p['n'], p['kind'])
+        per_fill = []
+        for f in FILLS:
+            cap, v, exc = VS.fit_vine(vt, X, t, f)
+            r = {'p': p, 'fill': f, 'exc': exc, 'cap': cap, 'v': v}
+            per_fill.append(r)
+            if exc is not None:
+                continue
+            r['struct'] = VS.edges_of(v.trees)
+            r['etaus'] = VS.edge_taus(v.trees)
+            term, okrec = VS.coq_replay(vt, d, t, cap.levels)
+            r['okrec'] = okrec
+            r['i_replay'] = len(exprs)
+            exprs.append(term)
+            r['i_valid'] = len(exprs)
+            exprs.append(VS.coq_valid(vt, d, t, r['struct']))
+            r['edge_problems'], r['fams'] = check_edge_copulas(cap, v)
+            r['i_theta'] = len(exprs)
+            exprs.append('[' + '; '.join(coq_theta(a, b) for a, b in r['fams']) + ']')
+        runs.append(per_fill)
+    outs = cases.run_vm_cases(ctx, 'Cases_C16_e2e', VS.VM_IMPORTS + '\nFrom CopRun Require Import Gen_bivq.', exprs,
+                              per_file=40 if quick else 120, scope_open=VS.VM_SCOPE)
+    n_fit = n_agree = 0
+    for pi, per_fill in enumerate(runs):
+        p = per_fill[0]['p']
+        vt, d, t, kind = p['vt'], p['d'], p['t'], p['kind']
+        tag = f"{vt}:d{d}:t{t}:{kind}"
+        if any(r['exc'] is not None for r in per_fill):
+            r = next(r for r in per_fill if r['exc'] is not None)
+            ex = r['exc']
+            if kind in DEGENERATE and isinstance(ex, ValueError) and not isinstance(ex, VS.SpinError):
+                refusals.append(f"{tag}: ValueError: {str(ex)[:60]}")
+                ctx.case(('e2e-refused', vt, d, kind), {'level': 'e2e', 'vine_type': vt, 'd': d, 'truncated': t, 'table': kind,
+                                                        'outcome': f'ValueError: {ex}'}, nontrivial=False)
+                continue
+            ctx.obligation(f'fit:{tag}', False, 'correspondence', repr(ex))
+            ctx.violation(f'fit-raises:{vt}:{type(ex).__name__}', f'VineCopula({vt!r}).fit on a {kind} table with {d} columns, truncated={t} '
+                          f'raised {type(ex).__name__}: {ex}', {'plan': p, 'repro': repro_fit(p, 'raises')})
+            continue
+        structs = [r['struct'] for r in per_fill]
+        for r in per_fill:
+            n_fit += 1
+            fn = fill_name(r['fill'])
+            model = VS.parse_vine(outs[r['i_replay']])
+            ok = model == r['struct'] and r['okrec'] and not isinstance(model, str)
+            n_agree += ok
+            ctx.obligation(f'corr:e2e:{tag}:fill={fn}', ok, 'correspondence',
+                           '' if ok else f"impl={r['struct']} model={model} records_consistent={r['okrec']}")
+            if not ok:
+                taus = [VS.tolist(lv['tau']) for lv in r['cap'].levels]
+                ctx.violation(f'corr:e2e:{vt}', f"VineCopula({vt!r}).fit ({kind} table, d={d}, truncated={t}, np.empty fill {fn}) built "
+                              f"{r['struct']} but the model replayed with the captured tau matrices gives {model}",
+                              {'plan': p, 'fill': fn, 'captured_taus': taus, 'impl': r['struct'], 'model': model,
+                               'repro': ("from vf import vinestruct as VS\n" f"taus = {taus!r}\nexpected = {(model if not isinstance(model, str) else 'skip')!r}\n"
+                                         f"r = VS.repro_unit({vt!r}, {d}, {t}, taus, expected)\nprint('\\n'.join(r))\nassert not r\n")})
+            vres = outs[r['i_valid']]
+            vok = vres == 'true'
+            ctx.obligation(f'valid:e2e:{tag}:fill={fn}', vok, 'correspondence', '' if vok else f"valid_vine = {vres} on {r['struct']}")
+            probs = VS.py_validate(vt, d, t, r['struct'], r['cap'].levels[0]['tau'])
+            if not vok or probs:
+                ctx.violation(f'invalid-vine:e2e:{vt}', f"VineCopula({vt!r}).fit on a {kind} table with {d} columns, truncated={t} is not a regular "
+                              f"vine of that type/depth: {probs[:3] or 'rejected by the Coq validator valid_vine'}",
+                              {'plan': p, 'fill': fn, 'impl': r['struct'], 'problems': probs, 'coq_valid_vine': vres,
+                               'repro': repro_fit(p, 'valid')})
+            th = outs[r['i_theta']]
+            th_ok = th is not None and 'false' not in th and th.count('true') == len(r['fams'])
+            e_ok = not r['edge_problems'] and th_ok
+            ctx.obligation(f'edges:e2e:{tag}:fill={fn}', e_ok, 'correspondence',
+                           '' if e_ok else f"{r['edge_problems'][:3]} coq check_theta={th} for {r['fams']}")
+            if not e_ok:
+                ctx.violation(f'edge-copula:{vt}', f"VineCopula({vt!r}).fit ({kind} table, d={d}, truncated={t}): an edge does not carry the copula "
+                              f"select_copula returned for its input columns, or its theta is not admissible: "
+                              f"{r['edge_problems'][:2] or [x for x, y in zip(r['fams'], (th or '').strip('[]').split(';')) if 'true' not in y][:2]}",
+                              {'plan': p, 'fill': fn, 'problems': r['edge_problems'], 'families': r['fams'], 'coq_check_theta': th,
+                               'repro': repro_fit(p, 'edges')})
+            for a, _ in r['fams']:
+                fam_count[a] = fam_count.get(a, 0) + 1
+        r0 = per_fill[0]
+        ctx.case(('e2e', vt, d, t, kind, digest(structs[0])),
+                 {'level': 'e2e', 'vine_type': vt, 'd': d, 'truncated': t, 'table': kind, 'rows': p['n'], 'table_seed': p['tseed'],
+                  'structure': structs[0], 'families': r0['fams'][:6]}, nontrivial=d >= 3)
+        # F8: does anything depend on the np.empty fill?
+        if any(s != structs[0] for s in structs[1:]):
+            first = next(k for k in range(len(structs[0])) if any(s[k] != structs[0][k] for s in structs[1:]))
+            ctx.violation(f'F8:{vt}-structure-depends-on-uninitialised-tau:tree{first + 1}',
+                          f"VineCopula({vt!r}).fit ({kind} table, {d} columns, truncated={t}): tree {first + 1} depends on the content of the "
+                          f"np.empty matrix of Tree.get_tau_matrix (cells never written are read by _build_kth_tree): "
+                          + ' / '.join(f'fill {fill_name(f)}: {[(e[1], e[2]) for e in s[first]]}' for f, s in zip(FILLS, structs)),
+                          {'plan': p, 'first_differing_tree': first + 1, 'structures': {fill_name(f): s for f, s in zip(FILLS, structs)},
+                           'repro': repro_fit(p, 'fill')})
+            f8_tau.setdefault(vt + ':structure', []).append(tag)
+        elif not all(VS.same_floats(r['etaus'], r0['etaus']) for r in per_fill[1:]):
+            lv = next(k for k in range(len(r0['etaus'])) if not all(VS.same_floats([r['etaus'][k]], [r0['etaus'][k]]) for r in per_fill[1:]))
+            f8_tau.setdefault(f'{vt}:edge.tau-only:first-at-tree{lv + 1}', []).append(tag)
+        nr = unwritten_reads(r0['cap'], r0['v'], vt)
+        for tk, cnt in nr.items():
+            f8_reads[f'{vt}:tree{tk}'] = f8_reads.get(f'{vt}:tree{tk}', 0) + cnt
+        # outside the F8 zone (regular/direct trees >= 3) every cell that is read must have been written
+        early = {tk: c for tk, c in nr.items() if vt == 'center' or tk <= 2}
+        ctx.obligation(f'tau-written:{tag}', not early, 'correspondence', f'unwritten tau cells read: {early}')
+        if early:
+            tk = min(early)
+            ctx.violation(f'F8:{vt}-reads-unwritten-tau:tree{tk}', f"VineCopula({vt!r}).fit ({kind} table, {d} columns, truncated={t}): building tree {tk} "
+                          f"reads {early[tk]} cell(s) of the tau matrix that Tree.get_tau_matrix never wrote",
+                          {'plan': p, 'unwritten_reads_per_tree': nr, 'repro': repro_fit(p, 'unwritten')})
+        # the level-1 matrix is the pairwise Kendall tau of the table
+        km = kendall_matrix(e2e_table(p['tseed'], d, p['n'], kind))
+        t0 = r0['cap'].levels[0]['tau']
+        k_ok = t0.shape == km.shape and bool(np.allclose(t0, km, rtol=0, atol=1e-9, equal_nan=True))
+        ctx.obligation(f'tau-level1:{tag}', k_ok, 'correspondence', '' if k_ok else f'Tree.fit got {t0.tolist()} but pairwise Kendall tau is {km.tolist()}')
+        if not k_ok:
+            ctx.violation(f'tau-level1-not-kendall:{vt}', f"VineCopula({vt!r}).fit ({kind} table, {d} columns): the matrix handed to the first tree is not the "
+                          f"pairwise Kendall tau of the table", {'plan': p, 'given': VS.tolist(t0), 'kendall': VS.tolist(km), 'repro': repro_fit(p, 'kendall')})
+        elif vt == 'regular':
+            probs = VS.py_validate(vt, d, t, structs[0], km)
+            if probs:
+                ctx.violation('invalid-vine:e2e:regular', f"VineCopula('regular').fit ({kind} table, {d} columns): {probs[:2]}",
+                              {'plan': p, 'problems': probs, 'repro': repro_fit(p, 'valid')})
+    ctx.extra['e2e'] = {'fits': n_fit, 'replays_agreeing': n_agree, 'plans': len(plan), 'families_selected': fam_count,
+                        'refused_degenerate_tables': refusals[:20]}
+    ctx.extra['F8_dependence_on_np_empty_fill'] = {k: (len(v), v[:4]) for k, v in sorted(f8_tau.items())}
+    ctx.extra['F8_unwritten_tau_cells_read'] = f8_reads
+
+
+def run(ctx):
+    quick = ctx.tier == 'quick'
+    status = biv.generate_q(ctx)
+    need = ['clayton_dom', 'frank_dom', 'gumbel_dom']
+    for k in need:
+        ctx.obligation(f'translate:{k}', not status.get(k, 'missing'), 'translation', status.get(k, 'missing') or '')
+    ctx.copy_src('Props/C16.v')
+    ctx.compile(['Gen_bivq.v', 'C16.v'])
+    ctx.rule('unit level: real VineCopula.train_vine + Tree.fit + CenterTree/DirectTree/RegularTree with synthetic tau matrices per level '
+             '(select_copula, get_tau_matrix, prepare_next_tree stubbed): every strict ordering of the pairwise |tau| ranks for d = 2,3,4 '
+             '(40 sampled orderings of the 720 for d = 4 in the quick tier) with random signs, and boundary-biased random matrices for d = 2..7 '
+             '(quarter grid with many ties, +-1, 0, denormal, NaN variables, NaN cells; levels >= 2 asymmetric), truncation in {0,1,2,3,d-1,d+2}; '
+             'numpy argsort order and Python set-iteration orders recorded and replayed; all trees compared with vm_compute of '
+             'Model.Vine.train_vine_gen_opt; Spec.VineValid.valid_vine evaluated on the implementation output')
+    ctx.rule('end to end: VineCopula(type).fit(table, truncated=t) for type in center/direct/regular, 2..7 columns, t in {1,2,3,d-1,d+2}, tables of '
+             '60..100 rows (Gaussian, strongly dependent, heavy-tailed, non-linear, rounded/tied, independent, monotone/anti-monotone/binary/duplicated '
+             'column), each under three np.empty fills (NaN, 0.123, 2.0) of copulas.multivariate.tree; tau matrices handed to Tree.fit captured and '
+             'replayed in the model; valid_vine on the output; (family, theta) of every edge against the captured select_copula calls, the '
+             'implementation check_theta and Model.BivCtl.check_theta on the generated domains')
+    ctx.rule('witness search: independent Python statement of the property (tree count/edge counts/spanning tree/star/path/proximity/'
+             'D = intersection/pair = symmetric difference/|D| = k-1/no pair twice; regular first tree total |tau| = own Kruskal maximum) on every output')
+    unit_level(ctx, quick)
+    e2e_level(ctx, quick)
+    ctx.trusted += ['Model.Vine is a hand-written transcription of copulas/multivariate/tree.py and VineCopula.train_vine (structure only); tied by the replay correspondence',
+                    'scipy.stats.kendalltau / DataFrame.corr(method="kendall"), GaussianKDE marginals and select_copula are oracles: the tau matrices and the '
+                    '(family, theta) pairs are captured values',
+                    "numpy argsort tie-breaking and Python set iteration order enter the model as recorded data (the theorems hold for every order / every "
+                    "tie-breaking that sorts row 0 last)",
+                    'the harness instruments copulas.multivariate.tree by monkeypatching (Tree.fit, _sort_tau_by_y, _check_constraint, sorted, np.empty, select_copula), restored afterwards']
+    ctx.assumptions += ['tau entries are finite floats or NaN (exact rationals in the model); level-1 tau has no entry <= -10 (true of any Kendall tau) for the D-vine path theorem',
+                        'proximity of regular vines beyond tree 3 and "no pair conditioned twice" for regular vines are not proved in general: checked per run by valid_vine',
+                        'statistical content (which family is selected, quality of theta) is C10/C11; here only: the edge stores what select_copula returned and theta passes check_theta',
+                        'the k-th tree (k >= 2) of a regular vine is NOT claimed to be a maximum spanning tree (get_tau_matrix writes tau of edge i alone into row i, F8)']
